@@ -30,7 +30,8 @@ MANIFEST = {
             'the timeout), flags a call still polling 50 polls later, requires '
             'the returned value to be the actual states and rejects a return '
             'before every entity reached/passed a requested state.'
-            "  Second session: the oracle uses its own constant of final states (the repository's rps.FINAL list is mutable shared state which a wait call can corrupt for later calls of the same process).",
+            "  Second session: the oracle uses its own constant of final states (the repository's rps.FINAL list is mutable shared state which a wait call can corrupt for later calls of the same process)."
+            '  Third session: a two-thread workload (400 / 12000 runs) puts wait_tasks on an application thread and the final notifications on a subscriber thread through the real _state_sub_cb, with a yield injected before every acquisition of the manager\'s task lock; the waiter\'s polls are counted and it has to return within 40 polls after the last notification was applied.',
     'note': 'bounded-progress restatement of "returns when it should" (3-poll '
             'slack, 50-poll hang threshold); state changes happen between '
             'polls, each state is held for at least one poll; timeout 0 is '
@@ -45,6 +46,7 @@ ASSUMPTIONS = ['virtual clock: module attribute `time` of task.py, pilot.py, '
                'process only']
 SHARDS   = {'quick': 8, 'thorough': 16}
 REQUIRED = {'returns_checked': 1500, 'polls': 20000, 'set:apis': 4,
+            'threaded_waits': 100,
             'blocked_as_expected': 20}
 
 SLACK = 3
@@ -329,9 +331,126 @@ def run_case(case, res):
 
 # ------------------------------------------------------------------------------
 #
+# ------------------------------------------------------------------------------
+# (b) the waiter and the state updates on their two real threads
+#
+# `wait_tasks` polls on the application thread while `_update_tasks` applies
+# notifications on the state subscriber thread.  A proxy around the manager's
+# task lock yields just before the lock is taken.  Polls are counted, not
+# seconds: once every awaited task is final the call has to return within a
+# few polls.
+#
+class _PollClock(object):
+    '''`time` for task_manager.py in the waiting thread: sleeps are short real
+    sleeps and are counted; other threads see the real module'''
+
+    def __init__(self, waiter_name, state):
+        self._w, self._st = waiter_name, state
+
+    def time(self):
+        import time as _t
+        return _t.time()
+
+    def sleep(self, dt):
+        import time as _t
+        import threading as _mt
+        if _mt.current_thread().name != self._w:
+            return _t.sleep(dt)
+        st = self._st
+        st['polls'] += 1
+        if st['final_at'] is not None and \
+                st['polls'] - st['final_at'] > st['limit']:
+            raise Hang()
+        _t.sleep(0.001)
+
+    def __getattr__(self, name):
+        import time as _t
+        return getattr(_t, name)
+
+
+def run_threads(case, res):
+    import time as _t
+    import random
+    import threading as _mt
+    from ..core import YieldLock
+
+    rng = random.Random(case['seed'])
+    tm  = make_tmgr()
+    n   = case['n']
+    uids  = ['t.%d' % i for i in range(n)]
+    tasks = {u: make_task(tm, u) for u in uids}
+    for u in uids:
+        tm._update_tasks([{'uid': u, 'type': 'task',
+                           'state': rps.AGENT_EXECUTING_PENDING}])
+    tm._tasks_lock = YieldLock(tm._tasks_lock, case['seed'], '_tasks_lock',
+                               sleeps=[0, 0.0005, 0.001, 0.002, 0.004])
+    st = {'polls': 0, 'final_at': None, 'limit': 40}
+    out, errs = dict(), list()
+
+    def waiter():
+        try:
+            out['ret'] = tm.wait_tasks(uids=list(uids), timeout=None)
+        except Hang:
+            out['hang'] = True
+        except Exception as e:
+            errs.append(repr(e))
+
+    def updater():
+        try:
+            _t.sleep(rng.choice([0, 0.002, 0.005]))
+            batches = [[u] for u in uids] if case['split'] else [list(uids)]
+            for b in batches:
+                tm._state_sub_cb(rpc.STATE_PUBSUB, {'cmd': 'update', 'arg': [
+                    {'uid': u, 'type': 'task', 'state': rps.DONE,
+                     'exit_code': 0, 'target_state': rps.DONE} for u in b]})
+                _t.sleep(rng.choice([0, 0.001, 0.003]))
+            st['final_at'] = st['polls']
+        except Exception as e:
+            errs.append(repr(e))
+
+    saved = m_tmgr.time
+    m_tmgr.time = _PollClock('app-waiter', st)
+    try:
+        a = _mt.Thread(target=waiter,  name='app-waiter')
+        b = _mt.Thread(target=updater, name='state-sub')
+        a.start(); b.start()
+        b.join(timeout=30)
+        a.join(timeout=30)
+    finally:
+        m_tmgr.time = saved
+
+    res.count('threaded_waits')
+    ctx = {'case': case, 'errors': errs, 'polls': st['polls'],
+           'final_at_poll': st['final_at'],
+           'states': {u: t.state for u, t in tasks.items()}}
+    if a.is_alive() or b.is_alive():
+        res.inconc('threaded wait: threads did not finish')
+        return
+    for e in errs:
+        res.violation('threads/raised', e, ctx)
+        return
+    if out.get('hang'):
+        res.violation('no-return/tmgr/threads', 'wait_tasks was still polling '
+                      '%d polls after every awaited task had become final on '
+                      'the subscriber thread' % st['limit'], ctx)
+        return
+    if out.get('ret') != [rps.DONE] * n:
+        res.violation('return-value/tmgr/threads', 'returned %r'
+                      % (out.get('ret'),), ctx)
+
+
 def run(ctx):
 
     res = Result()
+    rng = ctx.rng('threads')
+    for i in range(ctx.n(400, 12000)):
+        case = {'kind': 'threads', 'seed': rng.randint(0, 2 ** 30),
+                'n': rng.randint(1, 4), 'split': rng.random() < 0.6}
+        run_threads(case, res)
+        res.evaluations += 1
+        if len(res.violations) > 30:
+            break
+
     rng = ctx.rng('cases')
 
     for i in range(ctx.n(12000, 400000)):
@@ -348,6 +467,13 @@ def run(ctx):
 
 def replay(case, ctx):
     res = Result()
+    if case['case'].get('kind') == 'threads':
+        for _ in range(20):
+            run_threads(case['case'], res)
+            if res.violations:
+                break
+        res.evaluations = 1
+        return res
     run_case(case['case'], res)
     res.evaluations = 1
     return res
